@@ -11,7 +11,7 @@ open GaeaVerif GaeaVerif.LexC17
 
 /-- Leading trivia of a statement. -/
 inductive Trivia where
-  | ws (bs : Bytes)                   -- ASCII white space, non-empty
+  | ws (bs : Bytes)                   -- ASCII white space and semicolons (empty statements), non-empty
   | cblock (body : Bytes)             -- /* body */, body does not start with `!`
   | cdash (body : Bytes)              -- "--" body "\n": body empty or starting with a blank
   | chash (body : Bytes)              -- "#" body "\n"
@@ -36,7 +36,7 @@ def isVersion (v : Bytes) : Bool :=
    (d.length = 5 || d.length = 6) && d.all isDigitB)
 
 def Trivia.ok : Trivia → Bool
-  | .ws bs => bs ≠ [] && bs.all isAsciiWs
+  | .ws bs => bs ≠ [] && bs.all (fun b => isAsciiWs b || b.toNat = 0x3B)
   | .cblock body => blockFree body && (match body with | b :: _ => b.toNat ≠ 0x21 | [] => true)
   | .cdash body => (match body with | b :: _ => isAsciiWs b && b.toNat ≠ 0x0A | [] => true) && body.all (·.toNat ≠ 0x0A)
   | .chash body => body.all (·.toNat ≠ 0x0A)
@@ -67,32 +67,33 @@ def asciiLower (b : UInt8) : Nat := if 0x41 ≤ b.toNat ∧ b.toNat ≤ 0x5A the
 def isAsciiLetterB (b : UInt8) : Bool := isLetter b.toNat
 
 /-- Skip the leading trivia of a text (executable reference: what MySQL skips
-    before the first keyword). -/
-def skipTrivia : Nat → Bytes → Option Bytes
-  | 0, _ => none
-  | fuel + 1, l =>
+    before the first keyword).  The result also says whether an executable
+    comment `/*! … */` is open where the first keyword stands. -/
+def skipTrivia : Nat → Bool → Bytes → Option (Bool × Bytes)
+  | 0, _, _ => none
+  | fuel + 1, inExec, l =>
     match l with
-    | [] => some []
+    | [] => some (inExec, [])
     | b :: t =>
-      if isAsciiWs b then skipTrivia fuel t
+      if isAsciiWs b || b.toNat = 0x3B then skipTrivia fuel inExec t
       else if b.toNat = 0x23 then
         match indexSub [0x0A] t with
-        | some i => skipTrivia fuel (t.drop (i + 1))
-        | none => some []
+        | some i => skipTrivia fuel inExec (t.drop (i + 1))
+        | none => some (inExec, [])
       else if b.toNat = 0x2D ∧ startsDash t = true then
         match indexSub [0x0A] t with
-        | some i => skipTrivia fuel (t.drop (i + 1))
-        | none => some []
+        | some i => skipTrivia fuel inExec (t.drop (i + 1))
+        | none => some (inExec, [])
       else if b.toNat = 0x2F ∧ startsStar t = true then
         let t' := t.drop 1
         if startsBang t' then
           -- executable comment: its content is code
-          skipTrivia fuel (l.drop (specCodeStartLen l))
+          skipTrivia fuel true (l.drop (specCodeStartLen l))
         else
           match indexSub cStarSlash t' with
-          | some i => skipTrivia fuel (t'.drop (i + 2))
+          | some i => skipTrivia fuel inExec (t'.drop (i + 2))
           | none => none
-      else some l
+      else some (inExec, l)
 where
   startsDash (t : Bytes) : Bool :=
     match t with
@@ -101,25 +102,242 @@ where
   startsStar (t : Bytes) : Bool := match t with | a :: _ => a.toNat = 0x2A | [] => false
   startsBang (t : Bytes) : Bool := match t with | a :: _ => a.toNat = 0x21 | [] => false
 
-/-- The first keyword of a statement, in lower case: the maximal run of ASCII
+/-- The first keyword of a statement, in lower case, the text after it, and
+    whether an executable comment is open there: the maximal run of ASCII
     letters after the leading trivia, provided it is not part of a longer
     identifier. -/
-def firstKeyword (text : Bytes) : Option (List Nat) :=
-  match skipTrivia (text.length + 1) text with
+def firstKeywordRest (text : Bytes) : Option (List Nat × Bytes × Bool) :=
+  match skipTrivia (text.length + 1) false text with
   | none => none
-  | some l =>
+  | some (inExec, l) =>
     let word := l.takeWhile isAsciiLetterB
     if word = [] then none
     else
       match l.drop word.length with
-      | n :: _ => if isDigit n.toNat || n.toNat = 0x5F || n.toNat = 0x24 || n.toNat ≥ 0x80 then none
-                  else some (word.map asciiLower)
-      | [] => some (word.map asciiLower)
+      | n :: t => if isDigit n.toNat || n.toNat = 0x5F || n.toNat = 0x24 || n.toNat ≥ 0x80 then none
+                  else some (word.map asciiLower, n :: t, inExec)
+      | [] => some (word.map asciiLower, [], inExec)
+
+def firstKeyword (text : Bytes) : Option (List Nat) := (firstKeywordRest text).map (·.1)
+
+/-! ### statements that lead to another statement
+
+  `CALL p()` and `EXECUTE s` run code the proxy does not see: their effect is
+  unknown, so they *could* modify.  `PREPARE s FROM '…'` is the first half of
+  executing `…`.  `WITH … <statement>` is `<statement>`.  The reading of a WITH
+  statement is that of the backend, which the proxy does not know exactly:
+  whether a backslash escapes inside quotes (sql_mode) and whether a
+  `/*!NNNNN … */` comment is code (server version); the statement could modify
+  if it does under any of these readings. -/
+
+def kwCall : List Nat := [99, 97, 108, 108]
+def kwExecute : List Nat := [101, 120, 101, 99, 117, 116, 101]
+def kwPrepare : List Nat := [112, 114, 101, 112, 97, 114, 101]
+def kwWith : List Nat := [119, 105, 116, 104]
+def kwAs : List Nat := [97, 115]
+def kwRecursive : List Nat := [114, 101, 99, 117, 114, 115, 105, 118, 101]
+def kwFrom : List Nat := [102, 114, 111, 109]
+
+/-- Keywords the read-only check refuses (theorem `readonly_rejects`): the ten
+    write keywords and the three whose effect the proxy cannot know. -/
+def refusedKeywords : List (List Nat) := writeKeywords ++ [kwCall, kwPrepare, kwExecute]
+
+/-- A backend's way of reading a text. -/
+structure Reading where
+  nbe : Bool        -- NO_BACKSLASH_ESCAPES: a backslash inside quotes is an ordinary character
+  execCode : Bool   -- the content of `/*! … */` is code (else the whole is a comment)
+  deriving DecidableEq, Repr
+
+/-- A quoted text from its opening quote `q` on: its content and what follows
+    the closing quote (a doubled quote and, unless `nbe`, a backslash escape
+    stand for one character). -/
+def readQuoted (nbe : Bool) (q : UInt8) : Nat → Bytes → Option (Bytes × Bytes)
+  | 0, _ => none
+  | _ + 1, [] => none
+  | fuel + 1, c :: t =>
+    if c = q then
+      match t with
+      | c2 :: t2 => if c2 = q then (readQuoted nbe q fuel t2).map fun r => (q :: r.1, r.2) else some ([], t)
+      | [] => some ([], [])
+    else if c.toNat = 0x5C ∧ ¬ nbe ∧ q.toNat ≠ 0x60 then
+      match t with
+      | e :: t2 => (readQuoted nbe q fuel t2).map fun r => (e :: r.1, r.2)
+      | [] => none
+    else (readQuoted nbe q fuel t).map fun r => (c :: r.1, r.2)
+
+def startsSlash (t : Bytes) : Bool := match t with | s :: _ => s.toNat = 0x2F | [] => false
+
+/-- A position in a text as the backend's scanner has it: whether an
+    executable comment is open, and the unread text. -/
+abbrev Pos := Bool × Bytes
+
+/-- White space and comments between the tokens of a WITH clause, as the
+    backend skips them.  When the content of `/*! … */` is code, its opener is a
+    blank that opens it and `*/` is a blank that closes it (only while one is
+    open: elsewhere `*` and `/` are operators).  `none`: an unclosed comment. -/
+def skipBlanks (rd : Reading) : Nat → Pos → Option Pos
+  | 0, _ => none
+  | fuel + 1, (inExec, l) =>
+    match l with
+    | [] => some (inExec, [])
+    | b :: t =>
+      if isAsciiWs b then skipBlanks rd fuel (inExec, t)
+      else if b.toNat = 0x23 ∨ (b.toNat = 0x2D ∧ skipTrivia.startsDash t = true) then
+        match indexSub [0x0A] t with
+        | some i => skipBlanks rd fuel (inExec, t.drop (i + 1))
+        | none => some (inExec, [])
+      else if b.toNat = 0x2F ∧ skipTrivia.startsStar t = true then
+        let t' := t.drop 1
+        if skipTrivia.startsBang t' ∧ rd.execCode = true then skipBlanks rd fuel (true, l.drop (specCodeStartLen l))
+        else
+          match indexSub cStarSlash t' with
+          | some i => skipBlanks rd fuel (inExec, t'.drop (i + 2))
+          | none => none
+      else if b.toNat = 0x2A ∧ inExec = true ∧ startsSlash t = true then
+        skipBlanks rd fuel (false, t.drop 1)
+      else some (inExec, l)
+
+def blanks (rd : Reading) (p : Pos) : Option Pos := skipBlanks rd (p.2.length + 1) p
+
+/-- From just after an opening parenthesis: the position after the parenthesis
+    that closes it (quotes and comments inside are skipped). -/
+def skipGroup (rd : Reading) : Nat → Nat → Pos → Option Pos
+  | 0, _, _ => none
+  | fuel + 1, depth, p =>
+    match blanks rd p with
+    | none => none
+    | some (_, []) => none
+    | some (inExec, c :: t) =>
+      if c.toNat = 0x27 ∨ c.toNat = 0x22 ∨ c.toNat = 0x60 then
+        match readQuoted rd.nbe c (t.length + 1) t with
+        | some (_, after) => skipGroup rd fuel depth (inExec, after)
+        | none => none
+      else if c.toNat = 0x28 then skipGroup rd fuel (depth + 1) (inExec, t)
+      else if c.toNat = 0x29 then (if depth = 0 then some (inExec, t) else skipGroup rd fuel (depth - 1) (inExec, t))
+      else skipGroup rd fuel depth (inExec, t)
+
+def group (rd : Reading) (p : Pos) : Option Pos := skipGroup rd (p.2.length + 1) 0 p
+
+def isIdentB (c : UInt8) : Bool :=
+  isLetter c.toNat || isDigit c.toNat || c.toNat = 0x5F || c.toNat = 0x24 || decide (0x80 ≤ c.toNat)
+
+/-- A name (bare or quoted) at the start of `l`: its lower-cased bare spelling (`[]` for a quoted name) and the rest. -/
+def readName (rd : Reading) (l : Bytes) : Option (List Nat × Bytes) :=
+  match l with
+  | c :: t =>
+    if c.toNat = 0x60 ∨ c.toNat = 0x22 then (readQuoted rd.nbe c (t.length + 1) t).map fun r => ([], r.2)
+    else
+      let w := l.takeWhile isIdentB
+      if w = [] then none else some (w.map asciiLower, l.drop w.length)
+  | [] => none
+
+/-- The common table expressions `name [(columns)] AS (query) [, …]` and then the main statement. -/
+def readCtes (rd : Reading) : Nat → Pos → Option Bytes
+  | 0, _ => none
+  | fuel + 1, p =>
+    match blanks rd p with
+    | none => none
+    | some (e1, l1) =>
+      match readName rd l1 with
+      | none => none
+      | some (_, l2) =>
+        match blanks rd (e1, l2) with
+        | none => none
+        | some (e3, l3) =>
+          -- optional column list
+          let afterCols : Option Pos :=
+            match l3 with
+            | c :: t => if c.toNat = 0x28 then (group rd (e3, t)).bind (blanks rd) else some (e3, l3)
+            | [] => some (e3, l3)
+          match afterCols with
+          | none => none
+          | some (e4, l4) =>
+            match readName rd l4 with
+            | none => none
+            | some (w, l5) =>
+              if w ≠ kwAs then none
+              else
+                match blanks rd (e4, l5) with
+                | some (e6, c :: t) =>
+                  if c.toNat ≠ 0x28 then none
+                  else
+                    match (group rd (e6, t)).bind (blanks rd) with
+                    | none => none
+                    | some (_, []) => none
+                    | some (e7, d :: t') => if d.toNat = 0x2C then readCtes rd fuel (e7, t') else some (d :: t')
+                | _ => none
+
+/-- The statement a text `WITH [RECURSIVE] …` (given from after the word WITH) leads to, under a reading. -/
+def withMainSpec (rd : Reading) (inExec : Bool) (afterWith : Bytes) : Option Bytes :=
+  match blanks rd (inExec, afterWith) with
+  | none => none
+  | some (e, l) =>
+    let l' :=
+      match readName rd l with
+      | some (w, r) => if w = kwRecursive then r else l
+      | none => l
+    readCtes rd (l'.length + 1) (e, l')
+
+/-- What `PREPARE name FROM …` (given from after the word PREPARE) prepares. -/
+inductive Prepared where
+  | text (sql : Bytes)
+  | variable
+  | malformed
+
+def preparedOf (afterPrepare : Bytes) : Prepared :=
+  let rd : Reading := ⟨false, true⟩
+  match blanks rd (true, afterPrepare) with
+  | some (_, l) =>
+    match readName rd l with
+    | some (_, l2) =>
+      match (blanks rd (true, l2)).bind (fun p => readName rd p.2) with
+      | some (w, l3) =>
+        if w ≠ kwFrom then .malformed
+        else
+          match blanks rd (true, l3) with
+          | some (_, c :: t) =>
+            if c.toNat = 0x40 then .variable
+            else if c.toNat = 0x27 ∨ c.toNat = 0x22 then
+              match readQuoted false c (t.length + 1) t with
+              | some (body, _) => .text body
+              | none => .malformed
+            else .malformed
+          | _ => .malformed
+      | none => .malformed
+    | none => .malformed
+  | none => .malformed
+
+/-- The readings a backend may have of a WITH statement that is not itself
+    inside an executable comment; inside one (`/*!40101 with … */`, which the
+    proxy hands to its own grammar) the content is code. -/
+def readings (inExec : Bool) : List Reading :=
+  if inExec then [⟨false, true⟩, ⟨true, true⟩] else [⟨false, true⟩, ⟨false, false⟩, ⟨true, true⟩, ⟨true, false⟩]
+
+/-- Could the statement modify data or schema?  Its first keyword is one of the
+    write keywords, or CALL / EXECUTE (unknown effect), or it is a PREPARE of
+    such a statement (or of a text the proxy does not see), or a WITH that leads
+    to such a statement under one of the backend's readings. -/
+def couldModify : Nat → Bytes → Bool
+  | 0, _ => false
+  | fuel + 1, text =>
+    match firstKeywordRest text with
+    | none => false
+    | some (k, rest, inExec) =>
+      if writeKeywords.contains k then true
+      else if k = kwCall ∨ k = kwExecute then true
+      else if k = kwPrepare then
+        match preparedOf rest with
+        | .text sql => couldModify fuel sql
+        | .variable => true
+        | .malformed => false
+      else if k = kwWith then
+        (readings inExec).any fun rd =>
+          match withMainSpec rd inExec rest with
+          | some main => couldModify fuel main
+          | none => false
+      else false
 
 /-- Could the statement modify data or schema (the kinds C21 lists)? -/
-def isWrite (text : Bytes) : Bool :=
-  match firstKeyword text with
-  | some k => writeKeywords.contains k
-  | none => false
+def isWrite (text : Bytes) : Bool := couldModify (text.length + 1) text
 
 end GaeaVerif.PreviewC21
